@@ -252,10 +252,11 @@ func (c *pathParser) addSeg(segString []byte) error {
 			return errParamMismatch(op)
 		}
 		if c.inPath {
+			// the next sub-path, if any, starts at the same initial point:
+			// we stay in a path, which a following 'z' closes again
 			c.close()
 			c.currentX = c.pathStartX
 			c.currentY = c.pathStartY
-			c.inPath = false
 		}
 	case 'm':
 		rel = true
